@@ -105,7 +105,7 @@ package server
 //@     invariant none: forall(k, 0, idx__, t.Endpoints[k].Endpoint != endpoint.Endpoint)
 
 //@ func (t *Teamserver) ListenerRemove(Name string) (ls []*Listener, evs []packager.Package)
-//@   requires nonnil: t != nil && noNilListeners(t) && t.DB != nil && allunlocked("Havoc/cmd/server.Client", "Mutex")
+//@   requires nonnil: t != nil && noNilListeners(t) && t.DB != nil && t.DB.db != nil && allunlocked("Havoc/cmd/server.Client", "Mutex")
 //@   modifies *
 //@   guard-store persisted: "Teamserver\.Listeners.*" lastresult(ListenerRemove) == nil
 
@@ -119,7 +119,7 @@ package server
 //@ spec noNilLinks(a) = forall(i, 0, len(a.Pivots.Links), a.Pivots.Links[i] != nil && a.Pivots.Links[i].Info != nil)
 
 //@ func (t *Teamserver) LinkAdd(ParentAgent *agent.Agent, LinkAgent *agent.Agent) (err error)
-//@   requires nonnil: t != nil && t.DB != nil && ParentAgent != nil && LinkAgent != nil
+//@   requires nonnil: t != nil && t.DB != nil && t.DB.db != nil && ParentAgent != nil && LinkAgent != nil
 //@   guard-call ids: "LinkAdd" arg(1) == int(ParentAgentID) && arg(2) == int(LinkAgentID)
 //@   ensures ok: err == nil
 
@@ -128,7 +128,7 @@ package server
 // child's id leaves the parent's list (others keep their order), and the child no
 // longer names this parent.
 //@ func (t *Teamserver) LinkRemove(ParentAgent *agent.Agent, LinkAgent *agent.Agent, UpdateLinks bool)
-//@   requires nonnil: t != nil && t.DB != nil && ParentAgent != nil && LinkAgent != nil && LinkAgent.Info != nil && noNilLinks(ParentAgent)
+//@   requires nonnil: t != nil && t.DB != nil && t.DB.db != nil && ParentAgent != nil && LinkAgent != nil && LinkAgent.Info != nil && noNilLinks(ParentAgent)
 //@   modifies LinkAgent.Active, LinkAgent.Reason, ParentAgent.Pivots.Links, elems(ParentAgent.Pivots.Links)
 //@   guard-call ids: "LinkRemove" arg(1) == int(ParentAgentID) && arg(2) == int(LinkAgentID)
 //@   ensures dead:   LinkAgent.Active == false
@@ -141,11 +141,11 @@ package server
 
 // Removing an agent: completes for any number of links and leaves it without links.
 //@ func (t *Teamserver) UnlinkFromAll(Agent *agent.Agent)
-//@   requires nonnil: t != nil && t.DB != nil && Agent != nil && Agent.Info != nil && noNilLinks(Agent) && forall(i, 0, len(t.Agents.Agents), t.Agents.Agents[i] != nil && noNilLinks(t.Agents.Agents[i]))
+//@   requires nonnil: t != nil && t.DB != nil && t.DB.db != nil && Agent != nil && Agent.Info != nil && noNilLinks(Agent) && forall(i, 0, len(t.Agents.Agents), t.Agents.Agents[i] != nil && noNilLinks(t.Agents.Agents[i]))
 //@   modifies *
 //@   loop "for len(Agent.Pivots.Links) > 0"
-//@     invariant wf: noNilLinks(Agent) && t.DB != nil && Agent.Info != nil
+//@     invariant wf: noNilLinks(Agent) && t.DB != nil && t.DB.db != nil && Agent.Info != nil
 //@     decreases len(Agent.Pivots.Links)
 
 //@ func (t *Teamserver) AgentUpdate(agent *agent.Agent)
-//@   requires nonnil: t != nil && t.DB != nil && agent != nil && agent.Info != nil
+//@   requires nonnil: t != nil && t.DB != nil && t.DB.db != nil && agent != nil && agent.Info != nil
